@@ -783,7 +783,7 @@ def fam_unprod(rng):
                 lex_overlap=False, no_derive=True)
 
 
-MAX_TOKENS = {"amb": 7, "random": 10, "random-eps": 6, "nullable": 12}
+MAX_TOKENS = {"amb": 7, "random": 6, "random-eps": 6, "nullable": 12}
 
 FAMILIES = {
     "expr": fam_expr,
